@@ -728,14 +728,31 @@ func (it *Interp) assertOb(label string, c *Term) {
 		return
 	}
 	if it.pos < len(it.trace) {
+		d := it.trace[it.pos]
 		it.pos++
-		it.pushPC(c)
+		if d.val != 2 {
+			it.pushPC(c)
+		}
 		return
 	}
 	j.Obligations++
 	nc := it.St.Not(c)
+	// an obligation that a listed known finding excuses unconditionally does not constrain
+	// the rest of the path: what comes after it is still checked
+	always := false
+	for _, e := range it.path.excuses {
+		if e.Cond.IsTrue() && matchLabel(e.Pattern, label) {
+			always = true
+		}
+	}
 	if c.IsFalse() {
 		it.violation(label, "assertion constant false", nil)
+		if always {
+			j.Discharged++
+			it.trace = append(it.trace, decision{val: 2})
+			it.pos++
+			return
+		}
 		panic(pathEnd{"assertfail", label})
 	}
 	switch it.check(nc) {
@@ -750,6 +767,11 @@ func (it *Interp) assertOb(label string, c *Term) {
 		}
 	default:
 		j.inconclusive("solver unknown on obligation " + label)
+	}
+	if always {
+		it.trace = append(it.trace, decision{val: 2})
+		it.pos++
+		return
 	}
 	if !it.feasible(c) {
 		it.trace = append(it.trace, decision{val: 1})
@@ -833,6 +855,7 @@ func (it *Interp) beginPath() {
 	it.gsm7Text = nil
 	it.fpInt = nil
 	it.fpDiv = nil
+	it.fpLazy = nil
 	it.fmtTimeVals = nil
 }
 
